@@ -508,9 +508,28 @@ def expected_candidates(sys_, usr, key, file_order=False):
     return out
 
 
+def syl_starts_with(a, b):
+    # Syllable::starts_with over the u16 codes (initial 7 bits, medial 2, rime 4, tone 3)
+    tz = (b & -b).bit_length() - 1 if b else 16
+    mask = 9 if tz >= 9 else 7 if tz >= 7 else 3 if tz >= 3 else 0
+    return (a >> mask) == (b >> mask)
+
+
+def expected_candidates_prefix(sys_, usr, key):
+    # a trie FILE under the prefix lookup (the fuzzy engine): every key of the same length that matches syllable by
+    # syllable, keys in ascending order of their codes, each key's phrases in file order; a text is listed once
+    q = text_key(key)
+    keys = [k for k in sys_ if len(text_key(k)) == len(q) and all(x != 0 and syl_starts_with(x, y) for x, y in zip(text_key(k), q))]
+    out = []
+    for k in sorted(keys, key=text_key):
+        out += [t for t in sys_[k] if t not in out]
+    out += [t for t in sorted(usr.get(key, {}), key=text_key) if t not in out]
+    return out
+
+
 def c07(cases, res):
     out = []
-    lists = chooses = rejected = 0
+    lists = chooses = rejected = prefix_lists = 0
     for case in cases:
         sys_ = case_dict(case)
         # the phonetic layout in effect (setup line LAYOUT, `layout k` ops): Hsu (1) and ET26 (5) add the words of a
@@ -550,6 +569,14 @@ def c07(cases, res):
                         continue
                     key = ".".join(x[1:] for x in syms[b:e])
                     exp = expected_candidates(sys_, user_dict_of(s), key, file_order=capi)
+                    if capi and o[11] == 1:
+                        # "contains every phrase held for exactly the highlighted syllables": under the prefix lookup
+                        # the list holds those and the phrases of the other matching keys (what those are is decided
+                        # here independently of the model)
+                        if any(t not in cands for t in exp):
+                            out.append(fail("candidate-list-incomplete", case, i, "range %d-%d lacks %s in %s" % (b, e, [t for t in exp if t not in cands], cands)))
+                        exp = expected_candidates_prefix(sys_, user_dict_of(s), key)
+                        prefix_lists += 1
                     if layout in (1, 5) and e - b == 1 and cands[:len(exp)] == exp:
                         # the rest: words of one-syllable keys (the alternative readings; which readings is the
                         # layout's table, compared exactly by the model correspondence), each once
@@ -601,6 +628,7 @@ def c07(cases, res):
                 if tuple(disp[b:e]) != want[3]:
                     out.append(fail("chosen-item-not-displayed", case, i, "%s shown as %s" % (want, disp[b:e])))
     res.notes["oracle_lists"] = lists
+    res.notes["oracle_lists_under_prefix_lookup_of_a_trie_file"] = prefix_lists
     res.notes["oracle_choices"] = chooses
     res.notes["oracle_rejected_choices"] = rejected
     return out
